@@ -111,6 +111,19 @@ func Catalogue(prop, tier string) []Cfg {
 		prioCore()
 		scripts()
 		if prop == "C07" {
+			// negative harnesses: while an input stays open, or an item is never released,
+			// the discipline must not terminate - for any length of time (closed cycles)
+			for _, d := range []string{"v2", "v1"} {
+				add(pc(d, []uint{2, 1}, 2, "fair", []int{1}, []int{1, 1}, "rr", "open"))
+				add(pc(d, []uint{2, 1}, 2, "rate", []int{0, 1}, []int{1, 1}, "pool", "open"))
+				w := pc(d, []uint{2, 1}, 2, "fair", []int{2}, []int{2, 1}, "rr", "withhold")
+				w.R = 2 // three items, two releases: one item is withheld for ever
+				add(w)
+				w = pc(d, []uint{2, 1}, 3, "rate", []int{2}, []int{2, 2}, "rr", "withhold")
+				w.R = 3
+				add(w)
+			}
+			add(pc("s2", []uint{2, 1}, 2, "fair", []int{1}, []int{1, 1}, "", "open"))
 			// a legal custom divider must not make the discipline report an error
 			add(pc("v2", []uint{2, 1}, 4, "stray", []int{3}, []int{3, 2}, "rr", "preclosed"))
 			add(pc("v1", []uint{2, 1}, 4, "stray", []int{3}, []int{3, 2}, "rr", "preclosed"))
